@@ -28,6 +28,8 @@ mod region;
 mod region_metadata;
 mod region_state;
 mod regions;
+#[cfg(anydb_verif)]
+pub mod verif;
 
 pub use disk_usage::*;
 pub use error::*;
@@ -88,16 +90,29 @@ impl Database {
             .truncate(false)
             .open(Self::data_path_from(path))?;
 
+        #[cfg(anydb_verif)]
+        verif::emit(verif::Event::Point("open:file_opened"));
         file.try_lock()?;
+        #[cfg(anydb_verif)]
+        verif::emit(verif::Event::Point("open:locked"));
 
         let mut file_len = file.metadata()?.len() as usize;
         if file_len < min_len {
+            #[cfg(anydb_verif)]
+            verif::emit(verif::Event::SetLen {
+                file: verif::FileKind::Data,
+                len: min_len,
+            });
             file.set_len(min_len as u64)?;
             file.sync_all()?;
             file_len = min_len;
         }
 
+        #[cfg(anydb_verif)]
+        verif::emit(verif::Event::Point("open:len_set"));
         let regions = Regions::open(path)?;
+        #[cfg(anydb_verif)]
+        verif::emit(verif::Event::Point("open:regions_opened"));
         let mmap = create_mmap(&file)?;
 
         let db = Self(Arc::new(DatabaseInner {
@@ -151,6 +166,11 @@ impl Database {
             "{}: set_min_len to {} (requested {})",
             self, target_len, len
         );
+        #[cfg(anydb_verif)]
+        verif::emit(verif::Event::SetLen {
+            file: verif::FileKind::Data,
+            len: target_len,
+        });
         file.set_len(target_len as u64)?;
         self.0.cached_file_len.store(target_len, Ordering::Relaxed);
         *mmap = create_mmap(&file)?;
@@ -211,6 +231,19 @@ impl Database {
 
     #[inline]
     pub(crate) fn write(&self, start: usize, data: &[u8]) {
+        #[cfg(anydb_verif)]
+        {
+            let mmap = self.mmap();
+            verif::emit(verif::Event::MmapWrite {
+                file: verif::FileKind::Data,
+                off: start,
+                len: data.len(),
+                src: data.as_ptr(),
+            });
+            write_to_mmap(&mmap, start, data);
+            return;
+        }
+        #[cfg(not(anydb_verif))]
         write_to_mmap(&self.mmap(), start, data);
     }
 
@@ -231,6 +264,13 @@ impl Database {
         }
 
         let mmap = self.mmap();
+        #[cfg(anydb_verif)]
+        verif::emit(verif::Event::MmapWrite {
+            file: verif::FileKind::Data,
+            off: dst,
+            len,
+            src: mmap[src..src_end].as_ptr(),
+        });
         write_to_mmap(&mmap, dst, &mmap[src..src_end]);
         Ok(())
     }
@@ -346,6 +386,12 @@ impl Database {
 
         if flush_start < flush_end {
             let mmap = self.mmap();
+            #[cfg(anydb_verif)]
+            verif::emit(verif::Event::FlushAsync {
+                file: verif::FileKind::Data,
+                off: flush_start,
+                len: flush_end - flush_start,
+            });
             if let Err(e) = mmap.flush_async_range(flush_start, flush_end - flush_start) {
                 drop(mmap);
                 for (region, bounds) in dirty_regions {
@@ -359,6 +405,18 @@ impl Database {
 
         // Data must be durable before metadata (crash safety).
         self.regions().flush()?;
+        #[cfg(anydb_verif)]
+        {
+            let file = self.file();
+            verif::emit(verif::Event::SyncBegin {
+                file: verif::FileKind::Data,
+            });
+            file.sync_data()?;
+            verif::emit(verif::Event::SyncEnd {
+                file: verif::FileKind::Data,
+            });
+        }
+        #[cfg(not(anydb_verif))]
         self.file().sync_data()?;
         self.regions().sync_data()?;
         for (region, _) in &dirty_regions {
@@ -381,6 +439,13 @@ impl Database {
     /// Cancellable wait for use inside `run_bg` closures. Returns
     /// immediately when `sync_bg_tasks` is called.
     pub fn bg_sleep(&self, dur: Duration) {
+        #[cfg(anydb_verif)]
+        {
+            verif::emit(verif::Event::BgSleep);
+            if verif::skip_bg_sleep() {
+                return;
+            }
+        }
         let (m, cv) = &self.0.bg_sync;
         let mut g = m.lock();
         if !*g {
@@ -421,6 +486,21 @@ impl Database {
         // joins this thread before the Arc is deallocated.
         // ManuallyDrop prevents the refcount decrement we never incremented.
         let db = ManuallyDrop::new(unsafe { Self(Arc::from_raw(Arc::as_ptr(&self.0))) });
+        #[cfg(anydb_verif)]
+        {
+            let token = verif::next_token();
+            let handle = thread::spawn(move || {
+                verif::emit(verif::Event::ThreadStart { token });
+                let r = f(&db);
+                verif::emit(verif::Event::ThreadEnd { token });
+                r
+            });
+            verif::emit(verif::Event::Spawned { token });
+            self.0.bg_tasks.lock().push(handle);
+            VERIF_BG_TOKENS.lock().push((Arc::as_ptr(&self.0) as usize, token));
+            return;
+        }
+        #[cfg(not(anydb_verif))]
         self.0.bg_tasks.lock().push(thread::spawn(move || f(&db)));
     }
 
@@ -432,7 +512,21 @@ impl Database {
             cv.notify_all();
         }
         let handles: Vec<_> = self.0.bg_tasks.lock().drain(..).collect();
+        #[cfg(anydb_verif)]
+        let mut verif_tokens: Vec<usize> = {
+            let me = Arc::as_ptr(&self.0) as usize;
+            let mut all = VERIF_BG_TOKENS.lock();
+            let mine = all.iter().filter(|(d, _)| *d == me).map(|(_, t)| *t).collect();
+            all.retain(|(d, _)| *d != me);
+            mine
+        };
+        #[cfg(anydb_verif)]
+        verif_tokens.reverse();
         for handle in handles {
+            #[cfg(anydb_verif)]
+            if let Some(token) = verif_tokens.pop() {
+                verif::emit(verif::Event::Join { token });
+            }
             handle.join().unwrap()?;
         }
         *self.0.bg_sync.0.lock() = false;
@@ -467,6 +561,8 @@ impl Database {
         // acquire WRITE after checking, a concurrent write could be in progress.
         for region in &regions_to_check {
             let meta = region.meta_mut();
+            #[cfg(anydb_verif)]
+            verif::emit(verif::Event::Point("punch:meta_locked"));
             let rstart = meta.start();
             let len = meta.len();
             let reserved = meta.reserved();
@@ -504,7 +600,15 @@ impl Database {
         if punched > 0 {
             debug!("{}: punch_holes syncing after {} punches", self, punched);
             let file = self.file();
+            #[cfg(anydb_verif)]
+            verif::emit(verif::Event::SyncBegin {
+                file: verif::FileKind::Data,
+            });
             file.sync_data()?;
+            #[cfg(anydb_verif)]
+            verif::emit(verif::Event::SyncEnd {
+                file: verif::FileKind::Data,
+            });
         }
 
         Ok(())
@@ -569,41 +673,57 @@ impl Database {
 
     #[inline(always)]
     pub fn file(&self) -> RwLockReadGuard<'_, File> {
+        #[cfg(anydb_verif)]
+        verif::lock_rw("file", verif::LockMode::Read, &self.0.file);
         self.0.file.read()
     }
 
     #[inline(always)]
     pub fn file_mut(&self) -> RwLockWriteGuard<'_, File> {
+        #[cfg(anydb_verif)]
+        verif::lock_rw("file", verif::LockMode::Write, &self.0.file);
         self.0.file.write()
     }
 
     #[inline(always)]
     pub fn mmap(&self) -> RwLockReadGuard<'_, MmapMut> {
+        #[cfg(anydb_verif)]
+        verif::lock_rw("mmap", verif::LockMode::Read, &self.0.mmap);
         self.0.mmap.read()
     }
 
     #[inline(always)]
     pub fn mmap_mut(&self) -> RwLockWriteGuard<'_, MmapMut> {
+        #[cfg(anydb_verif)]
+        verif::lock_rw("mmap", verif::LockMode::Write, &self.0.mmap);
         self.0.mmap.write()
     }
 
     #[inline(always)]
     pub fn regions(&self) -> RwLockReadGuard<'_, Regions> {
+        #[cfg(anydb_verif)]
+        verif::lock_rw("regions", verif::LockMode::Read, &self.0.regions);
         self.0.regions.read()
     }
 
     #[inline(always)]
     pub(crate) fn regions_mut(&self) -> RwLockWriteGuard<'_, Regions> {
+        #[cfg(anydb_verif)]
+        verif::lock_rw("regions", verif::LockMode::Write, &self.0.regions);
         self.0.regions.write()
     }
 
     #[inline(always)]
     pub fn layout(&self) -> RwLockReadGuard<'_, Layout> {
+        #[cfg(anydb_verif)]
+        verif::lock_rw("layout", verif::LockMode::Read, &self.0.layout);
         self.0.layout.read()
     }
 
     #[inline(always)]
     pub(crate) fn layout_mut(&self) -> RwLockWriteGuard<'_, Layout> {
+        #[cfg(anydb_verif)]
+        verif::lock_rw("layout", verif::LockMode::Write, &self.0.layout);
         self.0.layout.write()
     }
 
@@ -650,6 +770,10 @@ impl fmt::Display for Database {
         write!(f, "{}", self.name())
     }
 }
+
+/// (database identity, token) of background threads not yet joined; join order = push order.
+#[cfg(anydb_verif)]
+static VERIF_BG_TOKENS: Mutex<Vec<(usize, usize)>> = Mutex::new(Vec::new());
 
 /// Weak reference to a [`Database`], held by regions to avoid reference cycles.
 #[derive(Debug, Clone)]
